@@ -112,6 +112,12 @@ EXT = {"i": [-(1 << 31), -(1 << 31) + 1, -1, 0, 1, (1 << 31) - 2, (1 << 31) - 1]
        "u": [0, 1, 2, (1 << 31) - 1, 1 << 31, (1 << 32) - 2, (1 << 32) - 1],
        "l": [-(1 << 63), -(1 << 63) + 1, -(1 << 32), -(1 << 31) - 1, -1, 0, 1, (1 << 31), (1 << 32) + 1, (1 << 63) - 2, (1 << 63) - 1],
        "m": [0, 1, 2, (1 << 31), (1 << 32) - 1, (1 << 32), (1 << 63) - 1, 1 << 63, (1 << 64) - 2, (1 << 64) - 1]}
+# values of very different magnitude whose sums / differences of up to four terms are still representable in the signed
+# types (unsigned: around the wrap points): large sizes, differences beyond 2^31 in the 64-bit types
+MID = {"i": [-(1 << 28), -(1 << 16) - 1, -1, 0, 1, (1 << 16) + 1, 1 << 28],
+       "u": [0, 1, (1 << 16) + 1, 1 << 28, 1 << 31, (1 << 32) - (1 << 28), (1 << 32) - 1],
+       "l": [-(1 << 60), -(1 << 32) - 1, -(1 << 31), -1, 0, 1, 1 << 31, (1 << 32) + 1, 1 << 60],
+       "m": [0, 1, 1 << 31, (1 << 32) + 1, 1 << 60, 1 << 63, (1 << 64) - (1 << 60), (1 << 64) - 1]}
 TYPES = ["i", "u", "l", "m"]
 # corner range / vector range of the statement-sequence batches
 PRANGE = {"i": (-1, 1), "u": (0, 2), "l": (-1, 1), "m": (0, 2)}
@@ -230,6 +236,55 @@ def batches(rng, tier):
             pick = lambda: [r.choice(ev) for _ in range(n)]
             ops.append(f"cmp {T} {n} {vs(pick())} {vs(pick())} {vs(pick())} {vs(pick())}")
         yield Batch(f"cmp-extreme-{T}234", ops, note="the same in 2, 3, 4 dimensions, seeded")
+    # ---- one axis at a time in 2, 3, 4 dimensions: axis k runs over ALL pairs of 1-D intervals of the corner range while the other
+    #      axes are held at a configuration in which every per-axis test passes (equal / nested / overlapping intervals), so
+    #      the result of every all_of-style function is decided by axis k alone (an error confined to one index shows)
+    for T in TYPES:
+        clo, chi, _, _ = RANGE[T]
+        o = 0 if SIGNED[T] else 1
+        backgrounds = [((1 + o, 3 + o), (1 + o, 3 + o)), ((0 + o, 3 + o), (1 + o, 2 + o)), ((0 + o, 2 + o), (1 + o, 3 + o))]
+        rng1 = range(clo, chi + 1)
+        for n in (2, 3, 4):
+            ops = []
+            for k in range(n):
+                for (a0, a1), (b0, b1) in backgrounds:
+                    for x0 in rng1:
+                        for x1 in rng1:
+                            for y0 in rng1:
+                                for y1 in rng1:
+                                    amin = [x0 if j == k else a0 for j in range(n)]
+                                    amax = [x1 if j == k else a1 for j in range(n)]
+                                    bmin = [y0 if j == k else b0 for j in range(n)]
+                                    bmax = [y1 if j == k else b1 for j in range(n)]
+                                    ops.append(f"pair {T} {n} {vs(amin)} {vs(amax)} {vs(bmin)} {vs(bmax)} {1 + o} {2 + o}")
+            yield Batch(f"axis-{T}{n}", ops, exhaustive=True,
+                        note="every axis k: all pairs of 1-D intervals on axis k x three passing configurations on the other axes")
+    # ---- mixed magnitudes: interval_distance on all quadruples; seeded pair / unary / shr / strel / single statements
+    for T in TYPES:
+        mv = MID[T]
+        ops = [f"idist {T} {a} {b} {c} {d}" for a in mv for b in mv for c in mv for d in mv]
+        yield Batch(f"idist-mid-{T}", ops, exhaustive=True, note="interval_distance on all quadruples of values of very different magnitude (differences beyond 2^31 / near 2^bits)")
+        r = rng.fork("mid" + T)
+        ops = []
+        for _ in range(3000 if thorough else 400):
+            n = r.choice([1, 1, 2, 2, 3])
+            pick = lambda: [r.choice(mv) for _ in range(n)]
+            c = r.choice(mv)
+            lo, hi = max(c - 1, mv[0]), min(c + 1, mv[-1])
+            k = r.below(10)
+            if k < 4:
+                ops.append(f"pair {T} {n} {vs(pick())} {vs(pick())} {vs(pick())} {vs(pick())} {lo} {hi}")
+            elif k < 7:
+                ops.append(f"unary {T} {n} {vs(pick())} {vs(pick())} {lo} {hi}")
+            elif k < 8:
+                ops.append(f"shr {T} {n} {vs(pick())} {vs(pick())} {vs(pick())}")
+            elif k < 9:
+                f = [r.range(-2, 2) if SIGNED[T] else r.choice([0, 1, 2, 3, mv[-1]]) for _ in range(n)]
+                ops.append(f"strel {T} {n} {vs(pick())} {vs(pick())} {vs(f)}")
+            else:
+                ops.append(progs_op(T, n, (pick(), pick(), pick(), pick(), pick()), 1 if SIGNED[T] else 2))
+        yield Batch(f"mid-{T}", ops, note="seeded boxes with corners of very different magnitude (large sizes): pair, unary, shrink/stretch, stretch_relative, "
+                    "every single statement (unsigned: every sequence of two)")
     # ---- statement sequences on the objects A, B, V
     for T in TYPES:
         full = thorough or T in "iu"
